@@ -99,6 +99,34 @@ Definition echo_oracle (e : N) (tI tJ : ty) (x : val) (o : obs_call) : bool :=
   | _, _ => false
   end.
 
+(* ---- closures over the versioned type, across versions: with_cb(a, f) calls f(a) on the caller's side and returns what f
+   returned; every hop (argument, closure argument, closure result, return value) travels at the effective version *)
+Definition cb_chain (e : N) (tI tJ : ty) (x : val) : res (val * val * val * val) :=
+  let* y1 := seen_by_impl e tI tJ x in          (* the implementation's argument *)
+  let* y2 := seen_by_impl e tJ tI y1 in         (* what the caller's closure is called with *)
+  let* y3 := seen_by_impl e tI tJ y2 in         (* the closure's result as the implementation receives it *)
+  let* y4 := seen_by_impl e tJ tI y3 in         (* the value the caller gets back *)
+  Ok (y1, y2, y3, y4).
+
+Definition optval_eqb (a : option val) (b : val) : bool := match a with Some x => val_eqb x b | None => false end.
+
+Definition agree_cb (e : N) (tI tJ : ty) (x : val) (l1 seen l3 : option val) (o : obs_call) : bool :=
+  match cb_chain e tI tJ x, o with
+  | Ok (y1, y2, y3, y4), OCallOk z => optval_eqb l1 y1 && optval_eqb seen y2 && optval_eqb l3 y3 && val_eqb z y4
+  | Ok _, OCallPanic => false
+  | _, OCallPanic => true
+  | _, _ => false
+  end.
+
+(* make_cb() returns a boxed closure; calling it with x: the implementation's closure sees y1 and returns it *)
+Definition agree_mkcb (e : N) (tI tJ : ty) (x : val) (called : option val) (o : obs_call) : bool :=
+  match (let* y1 := seen_by_impl e tI tJ x in let* y2 := seen_by_impl e tJ tI y1 in Ok (y1, y2)), o with
+  | Ok (y1, y2), OCallOk z => optval_eqb called y1 && val_eqb z y2
+  | Ok _, OCallPanic => false
+  | _, OCallPanic => true
+  | _, _ => false
+  end.
+
 (* a by-reference argument: serialized unless the mask bit is set; either way the implementation must see the value
    as if it had been serialized at the effective version (that is the property C11) *)
 Definition agree_byref_seen (e : N) (tI tJ : ty) (x : val) (logged : option val) : bool :=
